@@ -13,7 +13,10 @@ wrap_namespace(ffto.__dict__, globals())
 # e.g. by replacing fftn with repeated calls to 1d fft along each axis
 def fft_grad(get_args, fft_fun, ans, x, *args, **kwargs):
     axes, s, norm = get_args(x, *args, **kwargs)
-    check_no_repeated_axes(axes, anp.ndim(x))
+    if s is not None:
+        # an axis that is resized twice cannot be undone by one padded transform of the cotangent
+        # (with the default lengths a repeated axis is just transformed twice, which is fine)
+        check_no_repeated_axes(axes, anp.ndim(x))
     vs = vspace(x)
     return lambda g: match_complex(x, truncate_pad(fft_fun(g, *args, **kwargs), vs.shape))
 
@@ -21,11 +24,11 @@ def fft_grad(get_args, fft_fun, ans, x, *args, **kwargs):
 defvjp(fft, lambda *args, **kwargs: fft_grad(get_fft_args, fft, *args, **kwargs))
 defvjp(ifft, lambda *args, **kwargs: fft_grad(get_fft_args, ifft, *args, **kwargs))
 
-defvjp(fft2, lambda *args, **kwargs: fft_grad(get_fft_args, fft2, *args, **kwargs))
-defvjp(ifft2, lambda *args, **kwargs: fft_grad(get_fft_args, ifft2, *args, **kwargs))
+defvjp(fft2, lambda *args, **kwargs: fft_grad(get_fft2_args, fft2, *args, **kwargs))
+defvjp(ifft2, lambda *args, **kwargs: fft_grad(get_fft2_args, ifft2, *args, **kwargs))
 
-defvjp(fftn, lambda *args, **kwargs: fft_grad(get_fft_args, fftn, *args, **kwargs))
-defvjp(ifftn, lambda *args, **kwargs: fft_grad(get_fft_args, ifftn, *args, **kwargs))
+defvjp(fftn, lambda *args, **kwargs: fft_grad(get_fftn_args, fftn, *args, **kwargs))
+defvjp(ifftn, lambda *args, **kwargs: fft_grad(get_fftn_args, ifftn, *args, **kwargs))
 
 
 def rfft_grad(get_args, irfft_fun, ans, x, *args, **kwargs):
